@@ -873,7 +873,7 @@ func (c *FnCtx) callByContract(con *FuncContract, fobj *types.Func, recv string,
 			oldAlloc := c.alloc(st)
 			na := c.fresh("alloc", "(Array Int Bool)")
 			st.heap["alloc"] = na
-			st.addDef("(forall ((r Int)) (! (=> (select " + oldAlloc + " r) (select " + na + " r)) :pattern ((select " + oldAlloc + " r))))")
+			c.monotoneAlloc(st, oldAlloc, na)
 			st.addDef(not(sel(na, "0")))
 		}
 	}
@@ -911,10 +911,11 @@ func (c *FnCtx) havocLoc(m *ModLoc, pkg *Pkg, bind map[string]string, pre, st *S
 	if m.Kind == "ghost" {
 		for _, g := range strings.Split(m.Text, ",") {
 			g = strings.TrimSpace(g)
-			base := "GH!" + g
+			base := ghostBase(pkg, g)
 			srt := c.ghostSort(pkg, g)
 			c.heapSort[base] = srt
 			st.heap[base] = c.fresh("gh_"+g, srt)
+			c.heapAxioms(st, base, st.heap[base])
 		}
 		return
 	}
@@ -1010,6 +1011,9 @@ func (c *FnCtx) coverModifies(con *FuncContract, pkg *Pkg, bind map[string]strin
 		}
 	}
 }
+
+// ghostBase: ghost globals are package-level variables of the synthetic file; same naming as other globals.
+func ghostBase(pkg *Pkg, name string) string { return "G!" + pkg.Name + "." + name }
 
 func (c *FnCtx) ghostSort(pkg *Pkg, name string) string {
 	obj := pkg.Types.Scope().Lookup(name)
@@ -1223,7 +1227,7 @@ func (c *FnCtx) scanCallWrites(x *ast.CallExpr, li *loopInfo) {
 		for _, m := range con.Modifies {
 			if m.Kind == "ghost" {
 				for _, g := range strings.Split(m.Text, ",") {
-					base := "GH!" + strings.TrimSpace(g)
+					base := ghostBase(pkg, strings.TrimSpace(g))
 					li.heapBases[base] = true
 					c.eng.baseSorts[base] = c.ghostSort(pkg, strings.TrimSpace(g))
 				}
